@@ -49,7 +49,7 @@ def make_case(index, rng, tier):
         clients.append({"t": round(tc, 2), "dur": rng.choice([0, 0, 0.3, 1.0])})
         tc += rng.uniform(0.2, 0.9)
     return {"events": evs, "clients": clients, "unix": rng.randrange(2) == 0, "workers": rng.randrange(1, 3),
-            "graceful_timeout": rng.choice([1, 2]), "daemon": rng.randrange(3) == 0,
+            "graceful_timeout": rng.choice([1, 2]), "daemon": rng.randrange(3) == 0, "pidfile": rng.randrange(4) != 0,
             "buggify": {"pyticks": rng.randrange(3) == 0, "fork_child_first": rng.randrange(2) == 0, "spurious_select": rng.randrange(3) == 0,
                         "random_spawn_delay": rng.randrange(2) == 0}}
 
@@ -64,7 +64,9 @@ def run(case, choices):
     gt = case["graceful_timeout"]
     bind = "unix:/run/g.sock" if case["unix"] else "127.0.0.1:8000"
     cfg = {"workers": case["workers"], "timeout": 30, "graceful_timeout": gt, "bind": [bind], "proc_name": "m0",
-           "pidfile": "/run/g.pid", "daemon": case["daemon"]}
+           "daemon": case["daemon"]}
+    if case.get("pidfile", True):
+        cfg["pidfile"] = "/run/g.pid"
     w = master.World(sim, cfg)
     if case["unix"]:
         w.addr = "/run/g.sock"
@@ -84,12 +86,23 @@ def run(case, choices):
             out.append(mp)
         return out
 
+    expected = {}        # master pid -> expected number of workers (None = unknown yet)
+    last_change = {}
+
     def observer(s, actor, kind, detail):
         t = current_task()
+        if kind == "handle" and t is not None and t.proc in masters:
+            if detail == "winch" and case["daemon"]:
+                expected[t.proc.pid] = 0
+                last_change[t.proc.pid] = s.now
+            elif detail == "hup":
+                expected[t.proc.pid] = case["workers"]
+                last_change[t.proc.pid] = s.now
         if kind == "exec":
             p = t.proc
             if p not in masters:
                 p.parent_pid = p.ppid
+                p.exec_time = s.now
                 masters.append(p)
                 s.probe("new_master_execed")
         elif kind == "exit":
@@ -153,6 +166,10 @@ def run(case, choices):
                 tgt, sig = new, signal.SIGKILL
             elif kind == "usr2_new":
                 tgt, sig = new, signal.SIGUSR2
+                pe = state["exits"].get(getattr(new, "parent_pid", -1))
+                kids = [c for c in sim.procs.values() if c.ppid == new.pid and c.state == "running" and c in masters]
+                if pe is not None and sim.now > pe + 2.5 and new in running_masters() and not kids:
+                    state.setdefault("usr2_promoted", []).append((sim.now, new.pid))
         if tgt is None or tgt.state != "running":
             return
         if sig != signal.SIGKILL and int(sig) not in tgt.handlers:
@@ -199,7 +216,7 @@ def run(case, choices):
         # pid files
         for (t, rm, node, p1, p2) in samples:
             news = [x for x in masters[1:] if x.pid in rm]
-            if len(news) != 1:
+            if len(news) != 1 or not case.get("pidfile", True):
                 continue
             nm = news[0]
             mine = ("%d\n" % nm.pid).encode()
@@ -217,6 +234,27 @@ def run(case, choices):
                                 "the new master's pid %d; %s" % (parent_exit, t, p1, nm.pid, ctx()))
                 elif p2 == mine:
                     res.violate("C14:pidfile2-left", "after promotion the '.2' pid file is still there; %s" % ctx())
+        # a promoted master (its parent is gone for more than 2.5 s) must accept USR2 itself
+        for (tu, npid) in state.get("usr2_promoted", []):
+            np_ = sim.procs.get(npid)
+            if np_ is None or state["exits"].get(npid, 1e9) < tu + 1.5 or tu + 1.5 > sim.now:
+                continue
+            if not any(fp == npid and tu - 1e-9 <= ft <= tu + 1.5 for ft, fp, _c in state["reexec_forks"]):
+                res.violate("C14:promoted-master-cannot-upgrade",
+                            "USR2 was sent at t=%.2f to master pid %d whose parent had been gone for more than 2.5 s: no upgrade child "
+                            "was forked (the survivor never became a full master); %s" % (tu, npid, ctx()))
+        # every serving master keeps its pool: configured size, 0 after WINCH in daemon mode, configured size again after HUP
+        for mp in running_masters():
+            exp = expected.get(mp.pid, case["workers"])
+            since = max(last_change.get(mp.pid, 0.0), getattr(mp, "exec_time", 0.0))
+            booted = [tt for tt, pp, cc, kk in w.forks if pp == mp.pid and kk == "worker"]
+            if not booted or sim.now < max(since, booted[0]) + 3.5:
+                continue
+            live = [c for c in sim.procs.values() if c.ppid == mp.pid and c.state == "running" and c not in masters]
+            if len(live) != exp:
+                res.violate("C14:pool-size:%s" % ("empty" if not live else "wrong"),
+                            "master pid %d serves with %d live workers, expected %d (configured %d%s); %s"
+                            % (mp.pid, len(live), exp, case["workers"], ", WINCH/HUP history applied" if mp.pid in expected else "", ctx()))
         # the old master must be able to upgrade again once the new one is gone
         a0 = w.masters.get(m0.pid)
         if m0.state == "running" and a0 is not None and not getattr(a0, "_world_stopping", False):
